@@ -36,6 +36,11 @@ pub trait Compiler {
 
     fn compile(&mut self, tir: &AnyTir) -> Result<CompiledTx, Error>;
     fn reduce_op(&self, op: Self::CompilerOp) -> Result<Self::Expression, crate::reduce::Error>;
+
+    /// Called when the resolution of a new transaction starts. Compilers that remember
+    /// something about the last transaction they compiled must forget it here, so that the
+    /// outcome of a resolution never depends on what the instance compiled before.
+    fn reset(&mut self) {}
 }
 
 impl<C> Visitor for C
